@@ -271,6 +271,13 @@ def corpus_streams():
     out.append(('flood-300-echo', echo * 300))
     out.append(('flood-600-echo+garbage', echo * 600 + convs.UNKNOWN_PDU))
     out.append(('flood-1500-echo', echo * 1500))
+    # thousands of the smallest PDUs there are, in one burst (whatever the state makes of each: ignored, invalid, an event)
+    for n in (1500, 5000):
+        out.append(('tiny-flood-empty-pdata-%d' % n, b'\x04\x00\x00\x00\x00\x00' * n))
+        out.append(('tiny-flood-release-rq-%d' % n, refpdu.enc_pdu(convs.REL_RQ) * n))
+        out.append(('tiny-flood-release-rp-%d' % n, refpdu.enc_pdu(convs.REL_RP) * n))
+        out.append(('tiny-flood-unknown-type-%d' % n, b'\x09\x00\x00\x00\x00\x00' * n))
+        out.append(('tiny-flood-one-byte-pdv-%d' % n, b'\x04\x00\x00\x00\x00\x06\x00\x00\x00\x02\x01\x00' * n))
     return out
 
 
@@ -284,6 +291,11 @@ def run_mutators(ctx, job):
             if name.startswith('flood-') and state not in ('Sta6-acc', 'Sta6-req', 'Sta7', 'Sta2-accepting'):
                 continue
             if name.startswith('rq-huge-invalid') and state not in ('Sta2', 'Sta2-accepting', 'Sta2-serving', 'Sta6-acc'):
+                continue
+            if name.startswith('tiny-flood-'):
+                if not job['all_states'] and (name.endswith('-5000') or (i + si) % 2):
+                    continue
+                do_case(ctx, state, stream, 0, 'mutator:' + name.rsplit('-', 1)[0], name)
                 continue
             if not job['all_states'] and (i + si) % 2 and not name.startswith(('flood-', 'rq-huge-invalid')):
                 continue
